@@ -87,8 +87,8 @@ iovec_aggregate_ex(iovec_p iov, size_t iov_cnt, size_t data_size, size_t off,
 	if (0 == iov_cnt || 0 == ret_cnt || 0 == data_size ||
 	    (iov[0].iov_len - off) >= data_size ||
 	    (1 == iov_cnt && 0 == (iov[0].iov_len - off))) {
-		if (NULL != reminder_data_size_ret) {
-			(*reminder_data_size_ret) = 0;
+		if (NULL != reminder_data_size_ret) { /* Nothing consumed. */
+			(*reminder_data_size_ret) = data_size;
 		}
 		return (0);
 	}
@@ -276,8 +276,10 @@ r_buf_rpos_check_fast(r_buf_p r_buf, r_buf_rpos_p rpos) {
 			/* Reader out of buf range in previous round - normal. */
 			return (1); /* OK: fixed. */
 		}
-		if (rpos->iov_index > r_buf->iov_index)
-			return (1); /* OK: in range. */
+		if (rpos->iov_index > r_buf->iov_index &&
+		    r_buf->iov[rpos->iov_index].iov_base >=
+		    (r_buf->buf + r_buf->wpos))
+			return (1); /* OK: in range and not overwritten yet. */
 		/* Out of range: slow reader. */
 		return (0);
 	}
@@ -315,15 +317,21 @@ r_buf_rpos_check(r_buf_p r_buf, r_buf_rpos_p rpos, size_t *drop_size_ret) {
 			rpos->round_num ++;
 			return (1); /* OK: fixed. */
 		}
-		if (rpos->iov_index > r_buf->iov_index)
-			return (1); /* OK: in range. */
-		/* Out of range: slow reader. */
-		drop_size = (r_buf->size + r_buf_iovec_calc_size(&r_buf->iov[rpos->iov_index],
-		    (1 + r_buf->iov_index - rpos->iov_index)));
-		if (NULL != drop_size_ret) {
-			(*drop_size_ret) = drop_size;
+		if (rpos->iov_index > r_buf->iov_index) {
+			if (r_buf->iov[rpos->iov_index].iov_base >=
+			    (r_buf->buf + r_buf->wpos))
+				return (1); /* OK: in range and not overwritten yet. */
+			/* In table range, but writer has overwritten the data:
+			 * reader lost rest of previous round and this round. */
+			drop_size = (r_buf_iovec_calc_size(&r_buf->iov[rpos->iov_index],
+			    (1 + r_buf->iov_index_max - rpos->iov_index)) -
+			    rpos->iov_off +
+			    r_buf_iovec_calc_size(r_buf->iov, (1 + r_buf->iov_index)));
+		} else { /* Out of range: slow reader. */
+			drop_size = (r_buf->size + r_buf_iovec_calc_size(&r_buf->iov[rpos->iov_index],
+			    (1 + r_buf->iov_index - rpos->iov_index)));
 		}
-		return (0);
+		goto resync;
 	}
 	/* Some data lost for this receiver. */
 	//if (rpos->iov_index <= r_buf->iov_index ||
@@ -333,12 +341,13 @@ r_buf_rpos_check(r_buf_p r_buf, r_buf_rpos_p rpos, size_t *drop_size_ret) {
 	//SYSLOGD_EX(LOG_DEBUG, "rbuf: rn = %i, index = %i; rpos: rn = %i, index = %i",
 	//    r_buf->round_num, r_buf->iov_index, rpos->round_num, rpos->iov_index);
 
-	/* Calc dropped size. */
-	if (((size_t)(rpos->round_num + 1)) >= r_buf->round_num) { /* rpos > wpos */
+	/* Calc dropped size, round_num may wrap: compare modulo. */
+	if ((r_buf->round_num - rpos->round_num) > (((size_t)~0) >> 1)) { /* rpos > wpos */
 		drop_size = 0;
 	} else { /* rpos << wpos: wery slow reader. */
 		drop_size = (r_buf->size * (r_buf->round_num - rpos->round_num));
 	}
+resync:
 	rpos->iov_off = 0;
 	rpos->iov_index = (r_buf->iov_index + 1);
 	rpos->round_num = r_buf->round_num;
@@ -484,7 +493,7 @@ r_buf_wbuf_set(r_buf_p r_buf, size_t offset, size_t buf_size) {
 		return (EINVAL);
 	data_size = (buf_size - offset);
 	if (data_size < r_buf->min_block_size || /* Data to small. */
-	    data_size > (r_buf->size - r_buf->wpos)) /* Not enough space. */
+	    buf_size > (r_buf->size - r_buf->wpos)) /* Not enough space. */
 		return (EINVAL);
 	r_buf->iov[r_buf->iov_index].iov_len = data_size;
 	if (0 != offset) {
@@ -631,8 +640,13 @@ r_buf_data_get(r_buf_p r_buf, r_buf_rpos_p rpos, size_t data_size,
 		ret = iovec_aggregate_ex(&r_buf->iov[rpos->iov_index],
 		    (1 + r_buf->iov_index_max - rpos->iov_index), data_size,
 		    rpos->iov_off, iov, iov_cnt, &tm);
-		ret += iovec_aggregate_ex(r_buf->iov, (1 + r_buf->iov_index),
-		    tm, 0, &iov[ret], (iov_cnt - ret), &tm);
+		/* Continue with current round only if all blocks of the
+		 * previous round were taken: do not skip blocks. */
+		if ((data_size - tm) == (r_buf_iovec_calc_size(&r_buf->iov[rpos->iov_index],
+		    (1 + r_buf->iov_index_max - rpos->iov_index)) - rpos->iov_off)) {
+			ret += iovec_aggregate_ex(r_buf->iov, (1 + r_buf->iov_index),
+			    tm, 0, &iov[ret], (iov_cnt - ret), &tm);
+		}
 	}
 return_ok:
 	if (NULL != drop_size_ret) {
